@@ -98,7 +98,7 @@ structure RpmsAccepted (a : RpmsArgs) (p : RpmsPlan) : Prop where
   path_relative : Str.startsWith a.path ['/'] = false
   has_colon : ':' ∈ a.nevra
   parsed : ∃ d, parseNvra a.nevra = .ok d ∧ p.key = d.canonical
-            ∧ ((a.category = lit "source") ↔ d.arch ∈ srcArches)
+            ∧ ((a.category = lit "source") ↔ d.arch ∈ nevraSrcArches)
   source_no_srpm : a.category = lit "source" → a.srpm = none ∧ p.srpmKey = p.key
   binary_srpm : a.category ≠ lit "source" →
       ∃ s, a.srpm = some s ∧ ((s = [] ∧ p.srpmKey = p.key) ∨
@@ -130,7 +130,7 @@ theorem C12_rpms_plan (a : RpmsArgs) (p : RpmsPlan) (h : rpmsCheck a = .ok p) : 
   cases h
   have h5' : ¬ (a.category = lit "source" ∧ a.srpm.isSome = true) := by simpa using h5
   have h6' : ¬ (a.category ≠ lit "source" ∧ a.srpm.isNone = true) := by simpa using h6
-  have h7' : (a.category == lit "source") = srcArches.contains d.arch := by simpa using h7
+  have h7' : (a.category == lit "source") = nevraSrcArches.contains d.arch := by simpa using h7
   refine ⟨by simpa using h1, by simpa using h2, by simpa using h3, by simpa using h4, hcolon, ⟨d, hparse, hcanon, ?_⟩, ?_, ?_, rfl⟩
   · constructor
     · intro hc
@@ -138,7 +138,7 @@ theorem C12_rpms_plan (a : RpmsArgs) (p : RpmsPlan) (h : rpmsCheck a = .ok p) : 
       rw [this] at h7'
       simpa using h7'.symm
     · intro hc
-      have : srcArches.contains d.arch = true := by simpa using hc
+      have : nevraSrcArches.contains d.arch = true := by simpa using hc
       rw [this] at h7'
       simpa using h7'
   · intro hc
@@ -178,7 +178,7 @@ category disagreeing with the RPM's own arch -/
 theorem C12_rpms_refuses (s : PyVal) (a : RpmsArgs)
     (h : a.arch ∉ Gen.RPM_ARCHES ∨ a.arch ∈ srcArches ∨ a.category ∉ Gen.SUPPORTED_CATEGORIES
        ∨ Str.startsWith a.path ['/'] = true ∨ ':' ∉ a.nevra ∨ (∃ e, parseNvra a.nevra = .error e)
-       ∨ (∃ d, parseNvra a.nevra = .ok d ∧ ¬ ((a.category = lit "source") ↔ d.arch ∈ srcArches))) :
+       ∨ (∃ d, parseNvra a.nevra = .ok d ∧ ¬ ((a.category = lit "source") ↔ d.arch ∈ nevraSrcArches))) :
     Rpms.add s a = (s, .error .valueError) := by
   unfold Rpms.add
   cases hc : rpmsCheck a with
@@ -1288,6 +1288,12 @@ theorem C12_modules_example :
                  (lit "modulemd_path", .dict [(lit "binary", .str (lit "repodata/m.yaml"))]),
                  (lit "rpms", .list [.str (lit "a"), .str (lit "b")])])])])]) = true := by
   decide +kernel
+
+/-- obligation on the generated facts (tools/gen_builders.py): the compose arches refused by `Rpms.add` are exactly
+the arches that make an RPM a source RPM, and both are `src`, `nosrc` (known arches) -/
+theorem C12_source_arches :
+    srcArches = [lit "src", lit "nosrc"] ∧ nevraSrcArches = srcArches ∧ ∀ x ∈ srcArches, x ∈ Gen.RPM_ARCHES := by
+  decide
 
 /-- F5 (repaired): an unparsable name is a `ValueError` -/
 theorem C12_unparsable_is_valueError :
